@@ -25,9 +25,13 @@ class Boom(Exception):
 def obligations(tier, seed):
     rnd = random.Random(seed)
     obs = []
+    # the callable's failure is an exception of a kind cycled over the shapes: a custom exception, StopIteration (which
+    # iterator plumbing can swallow; inside a generator PEP 479 turns it into RuntimeError) and KeyError
     shapes = [(1, 1), (2, 2), (3, 2)] if tier == "quick" else [(l, t) for l in (1, 2, 3) for t in (1, 2, 3)]
-    for (L, T) in shapes:
+    kinds = ["Boom", "StopIteration", "KeyError"]
+    for si_, (L, T) in enumerate(shapes):
         for attached in (False, True):
+            exc = kinds[(si_ + (1 if attached else 0)) % len(kinds)]
             ncell = L * T
             params = []
             fills = []
@@ -57,11 +61,11 @@ def obligations(tier, seed):
             body = mk + f"""
     def fn(p_, line, track):
         if line == fl and track == ft:
-            raise Boom()
+            raise EXC()
         return Note(vel=nv, module=line + 1, ctl=track)
     try:
         r = pat.set_via_fn(fn)
-    except Boom:
+    except EXC:
         if fl >= {L}:
             return False
         now = [n for line in pat.data for n in line]
@@ -74,7 +78,7 @@ def obligations(tier, seed):
             if not (n.vel == nv and n.module == line + 1 and n.ctl == track and n.val == 0):
                 return False
 """ + own + "    return True\n"
-            obs.append(Ob(f"fn.{L}x{T}.{'att' if attached else 'free'}", build(params + [R("fl", 0, L), R("ft", 0, T - 1), R("nv", 0, 129)], body, setup=SETUP),
+            obs.append(Ob(f"fn.{L}x{T}.{'att' if attached else 'free'}", build(params + [R("fl", 0, L), R("ft", 0, T - 1), R("nv", 0, 129)], body, setup=SETUP + f"EXC = {exc}\n"),
                           "set_via_fn: a failure at any cell leaves the pattern exactly as before; success installs exactly the supplied notes and every note belongs to the pattern",
                           group="fn", shape=f"{L}x{T}, {'attached to a project' if attached else 'not attached'}", symbolic="failing cell (or never), previous content of every cell, new velocity", timeout=240))
             # ---- set_via_gen: generator yields k cells then fails at yield index j (j == ncell+1: never) ----
@@ -88,14 +92,14 @@ def obligations(tier, seed):
         k = 0
         for (l, t) in cells:
             if k == j:
-                raise Boom()
+                raise EXC()
             yield l, t, Note(vel=nv, val=k)
             k += 1
         if k == j:
-            raise Boom()
+            raise EXC()
     try:
         r = pat.set_via_gen(gen)
-    except Boom:
+    except (EXC, RuntimeError):
         if j > len(cells):
             return False
         now = [n for line in pat.data for n in line]
@@ -114,9 +118,29 @@ def obligations(tier, seed):
         if (l, t) not in cells and pat.data[l][t].raw_data != before[c * 8:c * 8 + 8]:
             return False
 """ + own + "    return True\n"
-            obs.append(Ob(f"gen.{L}x{T}.{'att' if attached else 'free'}", build(params + [R("j", 0, len(sub) + 1), R("nv", 0, 129)], body, setup=SETUP),
+            obs.append(Ob(f"gen.{L}x{T}.{'att' if attached else 'free'}", build(params + [R("j", 0, len(sub) + 1), R("nv", 0, 129)], body, setup=SETUP + f"EXC = {exc}\n"),
                           "set_via_gen: a failure at any yield index leaves the pattern exactly as before; success installs the yielded notes, keeps untouched cells, and every note belongs to the pattern",
                           group="gen", shape=f"{L}x{T}, {'attached' if attached else 'not attached'}; generator visits cells {sub}", symbolic="failing yield index (or never), previous content, new velocity", timeout=240))
+        if (L, T) == (2, 2):
+            for exc2 in kinds:
+                body2 = f"""
+    pat = Pattern(lines=2, tracks=2)
+    pat.data[1][0].vel = v0
+    before = pat.raw_data
+    objs = [n for line in pat.data for n in line]
+    def fn(p_, line, track):
+        if line * 2 + track == c:
+            raise {exc2}()
+        return Note(vel=nv)
+    try:
+        pat.set_via_fn(fn)
+    except {exc2}:
+        now = [n for line in pat.data for n in line]
+        return c < 4 and pat.raw_data == before and all(a is b for a, b in zip(now, objs))
+    return c >= 4 and all(n.vel == nv and n.pattern is pat for line in pat.data for n in line)
+"""
+                obs.append(Ob(f"fn.kind.{exc2}", build([R("c", 0, 4), R("v0", 0, 129), R("nv", 0, 129)], body2, setup=SETUP), f"set_via_fn with a callable failing by {exc2} at any cell: the exception reaches the caller and the pattern is unchanged",
+                              group="fn", shape="2x2 unattached", symbolic="failing cell 0..3 or never, contents", timeout=120))
         # two successive edits, then project-aware accessors
         body = f"""
     proj = Project()
